@@ -156,9 +156,12 @@ class C03(e1.E1Check):
         lo, hi = refops.array_depth(T)
         ax = int(m.group(1))
         pos = ax if ax >= 0 else ax + lo
+        permuted = False
+        if getattr(self, "_last", None) is not None:
+            permuted = rows_permuted(self._last[0], self._last[1])
         return {"innermost": pos == lo - 1, "empty_with_regular": empty_list_of_regular(("var", T), list(tvs)),
                 "empty_inner_list": has_empty_inner(values.strip(list(tvs))), "option_of_list": option_of_list(T),
-                "arg": label.startswith("arg")}
+                "arg": label.startswith("arg"), "rows_permuted": permuted, "levels_below": lo - 1 - pos}
 
     def signature(self, T, tvs, d, names, opname, args, failure):
         tvs = [e for e in tvs]
@@ -169,6 +172,7 @@ class C03(e1.E1Check):
         if failure == "value" and self._last is not None:
             permuted = rows_permuted(self._last[0], self._last[1])
         return {"innermost": pos == lo - 1, "rows_permuted": permuted, "empty_inner_list": has_empty_inner(values.strip(tvs)),
+                "levels_below": lo - 1 - pos,
                 "has_option": refops._has_kind(T, ("opt",)), "arg": opname.startswith("arg"),
                 "option_of_list": option_of_list(T),
                 "empty_with_regular": empty_list_of_regular(("var", T), list(tvs))}
